@@ -265,6 +265,7 @@ class TimeZone {
           }
         case kTypeBasic:
         case kTypeExtended:
+          mZoneProcessor->setZoneInfo(mZoneInfo);
           return mZoneProcessor->getAbbrev(epochSeconds);
         case kTypeBasicManaged:
         case kTypeExtendedManaged:
